@@ -44,6 +44,7 @@ type Verdict struct {
 	Unchanged     bool   `json:"unchanged"`
 	IntoEqual     bool   `json:"into_equal"`
 	IntoUnchanged bool   `json:"into_unchanged"`
+	TPUnchanged   bool   `json:"tp_unchanged"` // the same after mutating the containers reached through bare type-parameter fields
 	ObjectOK      bool   `json:"object_ok"`
 	Containers    int    `json:"containers"`
 	Depth         int    `json:"depth"`
@@ -162,6 +163,22 @@ func rootsOf(in *Input) (exprs []string, decls []*Decl) {
 	return
 }
 
+// tparamFields: generic struct -> fields of bare type-parameter type (see testProgram)
+func (in *Input) tparamFields() map[string][]string {
+	out := map[string][]string{}
+	for _, d := range in.Decls {
+		if d.Kind != DStruct || len(d.TParams) == 0 {
+			continue
+		}
+		for _, f := range d.Fields {
+			if f.K == KTParam {
+				out[d.Name] = append(out[d.Name], f.Name)
+			}
+		}
+	}
+	return out
+}
+
 func writeModule(in *Input, mod string) error {
 	if err := os.MkdirAll(filepath.Join(mod, "p"), 0o755); err != nil {
 		return err
@@ -229,7 +246,7 @@ func (prop) Run(raw json.RawMessage, scratch string) core.Result {
 	rootExprs, rootDecls := rootsOf(&in)
 	tdir := filepath.Join(mod, "cmd", "t")
 	_ = os.MkdirAll(tdir, 0o755)
-	_ = os.WriteFile(filepath.Join(tdir, "main.go"), []byte(testProgram(rootExprs, in.Seed, 6)), 0o644)
+	_ = os.WriteFile(filepath.Join(tdir, "main.go"), []byte(testProgram(rootExprs, in.Seed, 6, in.tparamFields())), 0o644)
 	rc, out, to := runCmd(mod, 240*time.Second, "go", "build", "-o", filepath.Join(mod, "t.exe"), "./cmd/t")
 	obs.Compiles = rc == 0 && !to && first == ""
 	if !obs.Compiles {
@@ -252,6 +269,7 @@ func (prop) Run(raw json.RawMessage, scratch string) core.Result {
 	inDomain := in.InDomain()
 	class := in.knownClass()
 	var viol []string
+	tpViol := 0 // violations that are the known finding type_argument_with_containers and nothing else
 	add := func(f string, a ...any) { viol = append(viol, fmt.Sprintf(f, a...)) }
 	switch obs.Runs[0].Status {
 	case "crash":
@@ -294,11 +312,17 @@ func (prop) Run(raw json.RawMessage, scratch string) core.Result {
 				add("%s: DeepCopyObject present=%v but interfaces tag=%v", v.Type, v.HasObject, d.Ifaces)
 			case v.HasObject && !v.ObjectOK:
 				add("%s: DeepCopyObject does not return an independent equal copy", v.Type)
+			case !v.TPUnchanged:
+				add("%s: mutating a slice/map reached through a bare type-parameter field of the copy changed the original: the generic method assigns the field (%s)", v.Type, v.Detail)
+				tpViol++
 			}
 		}
 	}
 	if len(viol) > 0 && obs.Runs[0].src != nil {
 		obs.File = string(obs.Runs[0].src)
+	}
+	if tpViol > 0 && tpViol == len(viol) && in.typeArgWithContainers() {
+		class = "type_argument_with_containers"
 	}
 	res.Observed = obs
 	res.Class = class
@@ -372,6 +396,53 @@ func (in *Input) knownClass() string {
 		}
 	}
 	return ""
+}
+
+// typeArgWithContainers: some instantiation's type argument is, or by value contains, a slice or a map (the input class of the
+// known finding type_argument_with_containers; the class is given to a failing case only when the ONLY thing that fails
+// is the no-sharing sentence for containers reached through a bare type-parameter field).
+func (in *Input) typeArgWithContainers() bool {
+	var holds func(name string, fuel int) bool
+	holds = func(name string, fuel int) bool {
+		d := in.decl(name)
+		if d == nil || fuel == 0 {
+			return false
+		}
+		switch d.Kind {
+		case DMap:
+			return true
+		case DStruct:
+			for _, f := range d.Fields {
+				switch f.K {
+				case KSlice, KMap, KSliceOf, KSliceSl:
+					return true
+				case KNamed:
+					if holds(f.A, fuel-1) {
+						return true
+					}
+					for _, a := range f.Args {
+						if holds(a, fuel-1) {
+							return true
+						}
+					}
+				}
+			}
+		}
+		return false
+	}
+	for _, d := range in.Decls {
+		for _, f := range d.Fields {
+			if f.K != KNamed {
+				continue
+			}
+			for _, a := range f.Args {
+				if holds(a, len(in.Decls)+1) {
+					return true
+				}
+			}
+		}
+	}
+	return false
 }
 
 func (in *Input) shadowClass() string {
